@@ -31,6 +31,7 @@ func conformance() {
 	}
 	defer os.RemoveAll(work)
 	src := filepath.Join(verifDir, "conformance", "progs", "progs.go")
+	rewrite.Prepare([]string{src})
 	rewritten, _, err := rewrite.File(src)
 	if err != nil {
 		die(3, "rewrite: %v", err)
